@@ -275,6 +275,11 @@ func (mergeSuite) Gen(r *rand.Rand, i int) Case {
 	for j := 0; j < 6; j++ {
 		c.Ops = append(c.Ops, "m "+encodeSide(r, t, paths, 1, nil)+" | "+encodeSide(r, t, paths, 2, nil))
 	}
+	// aliasing: recv.Merge(o1); recv.Merge(o2) must leave o1 exactly as it was (a receiver that adopts o1's map or
+	// slice instead of copying lets the second merge write into o1)
+	for j := 0; j < 6; j++ {
+		c.Ops = append(c.Ops, "a "+encodeSide(r, t, paths, 1, map[string]bool{})+" | "+encodeSide(r, t, paths, 2, nil)+" | "+encodeSide(r, t, paths, 3, nil))
+	}
 	// factory layering (hystrix.Factory, responsetimeslo.Factory): per-circuit constructors from last to first, then the
 	// factory's own config, then the library defaults — a fold of Merge
 	if _, ok := factoryResult[name]; ok {
@@ -378,6 +383,21 @@ func (mergeSuite) Run(h map[string]string, ops []string) []string {
 				parts := make([]string, len(paths))
 				for j, p := range paths {
 					parts[j] = p + "=" + getLeaf(fieldByPath(got, p))
+				}
+				return strings.Join(parts, ";")
+			}
+			if strings.HasPrefix(op, "a ") {
+				sides := strings.Split(strings.TrimPrefix(op, "a "), " | ")
+				recv := reflect.New(t)
+				o1, o2 := reflect.New(t).Elem(), reflect.New(t).Elem()
+				decodeInto(recv.Elem(), sides[0])
+				decodeInto(o1, sides[1])
+				decodeInto(o2, sides[2])
+				recv.MethodByName("Merge").Call([]reflect.Value{o1})
+				recv.MethodByName("Merge").Call([]reflect.Value{o2})
+				parts := make([]string, len(paths))
+				for j, p := range paths {
+					parts[j] = p + "=" + getLeaf(fieldByPath(o1, p))
 				}
 				return strings.Join(parts, ";")
 			}
